@@ -202,9 +202,14 @@ class Result:
     states: dict  # role -> dict of state terms
     world: Any = None
     error: Optional[str] = None
+    final_path: tuple = ()  # the decisions of the last step only (= path without earlier steps)
+    final_assumptions: list = field(default_factory=list)
 
 
 class World:
+    memo_start = 0
+    final_start = 0
+
     def __init__(self, prog: Program, cfg: Config, decisions=()):
         self.prog = prog
         self.cfg = cfg
@@ -214,6 +219,8 @@ class World:
         self.trace: list = []
         self.assumptions: list = []
         self.owned: set = set()
+        self.memo_start = 0  # index in `assumptions` where the current step's decisions begin
+        self.final_start = 0  # index in `trace` where the last step's decisions begin
         self.containers_keepalive: list = []
         self.prims: list = []
         self._build()
@@ -424,9 +431,9 @@ class World:
         """Truth value of a symbolic condition: explored both ways (path forking)."""
         it.event("symbolic-truth", node,
                  f"python truth value of symbolic `{short(node, 60)}`", data=v.t)
-        for t, c, _ in self.assumptions:
+        for t, c, _ in self.assumptions[self.memo_start:]:
             if t == v.t:
-                return c  # the same condition was decided before on this path
+                return c  # the same condition was decided before in this step
         i = len(self.trace)
         choice = self.decisions[i] if i < len(self.decisions) else True
         self.trace.append(choice)
@@ -447,6 +454,10 @@ class World:
         return NotImplemented
 
     def getattr(self, it, o, attr, node):
+        if isinstance(o, Obj) and attr in ("next_states", "has_next_states") and it.stack:
+            fi = it.stack[-1].fi
+            it.event("next-states-read", node, f"`{attr}` of {o.ident} read in {fi.qualname if fi else '<module>'}",
+                     data=(fi.qualname if fi else "<module>"))
         if isinstance(o, Obj) and o.kind == "net":
             return self._net_attr(it, attr, node)
         if isinstance(o, Obj) and o.kind == "engine":
@@ -735,6 +746,7 @@ def run_config(prog: Program, cfg: Config, decisions=(), entry="network") -> Res
             kwargs["init_conditions"] = w.init_conditions
             kwargs["engine"] = w.EXPL if hengine == "explicit" else None
             it.call_function(FuncV(step, w.net, defcls=NET), [], kwargs)
+            w.memo_start, w.final_start = len(w.assumptions), len(w.trace)
         n_prims_before = len(w.prims)
         n_events_before = len(it.events)
         kwargs = {f: (f in cfg.flags) for f in FLAGS}
@@ -762,7 +774,8 @@ def run_config(prog: Program, cfg: Config, decisions=(), entry="network") -> Res
             else:
                 st[g] = d
         states[role] = st
-    return Result(cfg, tuple(w.trace), w.assumptions, outputs, it.events, raised, w.prims, states, w, error)
+    return Result(cfg, tuple(w.trace), w.assumptions, outputs, it.events, raised, w.prims, states, w, error,
+                  tuple(w.trace[w.final_start:]), list(w.assumptions[w.memo_start:]))
 
 
 def run_all_paths(prog: Program, cfg: Config, max_paths: int = 16):
